@@ -23,11 +23,9 @@ class MemCBM(ABCCBMPropertyGraph, NetworkXPropertyGraph):
     unmerge_adm = ncbm.Neo4jCBMGraph.unmerge_adm
     _update_node_delegations = ncbm.Neo4jCBMGraph._update_node_delegations
 
-    def get_bqm(self, **kwargs):
-        raise NotImplementedError
-
-    def get_delegations(self, **kwargs):
-        raise NotImplementedError
+    get_bqm = ncbm.Neo4jCBMGraph.get_bqm
+    get_delegations = ncbm.Neo4jCBMGraph.get_delegations
+    DELEGATION_TYPE_TO_PROP_NAME = ncbm.Neo4jCBMGraph.DELEGATION_TYPE_TO_PROP_NAME
 
     def get_matching_nodes_with_components(self, **kwargs):
         raise NotImplementedError
@@ -135,7 +133,12 @@ class CBMRunner:
         return {"cbm": self._graph_state(self.CBM_ID, True),
                 "adm": {i: self._graph_state("adm-" + i, False) for i in self.adms},
                 "snaps": {k: self._graph_state(g, True) for k, g in self.snaps.items()},
-                "leftover_graphs": sorted(str(x) for x in gids - known)}
+                "leftover_graphs": sorted(str(x) for x in gids - known), "plug": self.plugged()}
+
+    @staticmethod
+    def plugged():
+        from fim.pluggable import PluggableRegistry, PluggableType
+        return bool(PluggableRegistry().pluggable_registered(t=PluggableType.Broker))
 
     def apply(self, o):
         op = o["op"]
@@ -154,6 +157,35 @@ class CBMRunner:
             elif op == "Rollback":
                 self.cbm.rollback(graph_id=self.snaps[o["k"]])
                 self.snaps.pop(o["k"])
+            elif op == "GetDelegations":
+                at = DelegationType.CAPACITY if o["t"] == "cap" else DelegationType.LABEL
+                v = self.cbm.get_delegations(node_id=o["x"], adm_id="adm-" + o["i"], delegation_type=at)
+                if v is None:
+                    self.res = {"k": "deleg", "v": "none"}
+                else:
+                    v = [v] if isinstance(v, dict) else v
+                    toks = [_det_token(d.get("capacities") or d.get("labels") or d) for d in v] \
+                        if isinstance(v, list) else ["?" + json.dumps(v)]
+                    self.res = {"k": "deleg", "v": toks[0] if len(toks) == 1 else "?" + json.dumps(v)}
+            elif op in ("Plug", "Unplug"):
+                from fim.pluggable import PluggableRegistry, PluggableType, BrokerPluggable
+
+                class Marker(BrokerPluggable):
+                    def plug_produce_bqm(self, *, cbm, **kwargs):
+                        return ("produced-by-plugin", cbm.graph_id)
+                if op == "Plug":
+                    PluggableRegistry().register_pluggable(t=PluggableType.Broker, p=Marker, actor=None)
+                else:
+                    PluggableRegistry().unregister_pluggable(t=PluggableType.Broker)
+            elif op == "GetBQM":
+                before = self._graph_state(self.CBM_ID, True)
+                b = self.cbm.get_bqm()
+                if isinstance(b, tuple):
+                    self.res = {"k": "bqm", "via": "plugin", "same": b == ("produced-by-plugin", self.CBM_ID)}
+                else:
+                    same = self._graph_state(b.graph_id, True) == before and b.graph_id != self.CBM_ID
+                    self.imp.delete_graph(graph_id=b.graph_id)
+                    self.res = {"k": "bqm", "via": "copy", "same": bool(same)}
             else:
                 raise ValueError(op)
             return "ok"
@@ -164,7 +196,12 @@ class CBMRunner:
 def run_script(script):
     r = CBMRunner()
     steps = []
-    for o in script:
-        out = r.apply(o)
-        steps.append({"op": o, "out": out, "res": {"k": "none"}, "state": r.project()})
+    try:
+        for o in script:
+            r.res = {"k": "none"}
+            out = r.apply(o)
+            steps.append({"op": o, "out": out, "res": r.res, "state": r.project()})
+    finally:
+        from fim.pluggable import PluggableRegistry, PluggableType
+        PluggableRegistry().unregister_pluggable(t=PluggableType.Broker)      # the registry is process-wide
     return {"steps": steps}
